@@ -32,9 +32,22 @@ def run_mixed(w, s1, s2, opname):
     """quantities of two different types: + - < <= > >= raise
     IncompatibleUnitsError, == is False, != is True, sum raises."""
     Q = w.q
+    out = []
+    sc1, sc2 = w.um[s1].scale, w.um[s2].scale
+    pairs = [(2, 3), (0, 0), (F(0), 0)]
+    if sc1 is not None and sc2 is not None:
+        # equal values in the two reference units
+        pairs.append((F(1), F(sc1) / F(sc2)))
+    for x, y in pairs:
+        out += _mixed_one(w, s1, s2, opname, x, y)
+    return out
+
+
+def _mixed_one(w, s1, s2, opname, x, y):
+    Q = w.q
     u1, u2 = w.units[s1], w.units[s2]
-    a, b = u1.qty_cls(2, u1), u2.qty_cls(3, u2)
-    what = f"(2 {s1}) {opname} (3 {s2})"
+    a, b = u1.qty_cls(x, u1), u2.qty_cls(y, u2)
+    what = f"({x} {s1}) {opname} ({y} {s2})"
     try:
         if opname == 'sum':
             res = Q.sum([a, b])
@@ -206,8 +219,8 @@ def part_mixed(part):
                 continue
             for s2 in first[t2]:
                 for opname in list(OPS) + ['sum']:
-                    st.transitions += 1
-                    st.evaluations += 1
+                    st.transitions += 4
+                    st.evaluations += 4
                     st.paths += 1
                     st.state(('mixed', t1, t2, opname), nontrivial=True)
                     for sig, msg in run_mixed(w, s1, s2, opname):
